@@ -31,6 +31,12 @@ func c08unrepJudge(k *mon.Case, entry string, tt int, info *gtab.Info) {
 		k.Class("unrep:" + entry + ":refused-loudly")
 	case o.readErr == nil && o.diff == "" && o.rep.OK():
 		k.Class("unrep:" + entry + ":reads-back-equal")
+	case o.readErr != nil && o.rep.OK() && len(o.rep.Unsupported) == 0:
+		// the independent walker finds every offset in range and the
+		// structures tiling the bytes without gap or overlap: nothing was
+		// truncated, the structure was representable after all and was
+		// written correctly - and the library cannot read its own output
+		k.Fail("mismatch", "c08:wellformed-output-rejected:"+entry, "Encode wrote %d well-formed bytes (walker: no problem, no gap, no overlap) which gtab.Read rejects: %v\n%s", len(o.enc), o.readErr, c08describe(info))
 	default:
 		k.Fail("mismatch", "c08:unrep:"+entry+":silently-corrupt", "Encode wrote %d bytes without complaint; read error: %v; difference: %s; walker: %v\n%s", len(o.enc), o.readErr, o.diff, o.rep.Problems, c08describe(info))
 	}
